@@ -301,9 +301,16 @@ def run_c01(report):
                disagreements_checked=len(divergences), model_fidelity_mismatches=len(fidelity_bad),
                vm_compute_crosschecked=n_vm, per_backend=per_backend,
                distribution={"%s/%s" % k: v for k, v in sorted(dist.items())})
+    # 3. the OSFS model over the POSIX kernel model (FS/Osfs.v, proved to refine the reference in FS/OsfsProofs.v)
+    #    must match the real OSFS step by step; its recorded kernel table is re-checked on the live kernel
+    import h_osfs
+    cov["osfs_model"] = h_osfs.run_osfs_model_check(report, regress + hs, thorough)
+    # 4. one-member MultiFS (proved to refine its member, Route/CompMultiOne.v) and the composites' state models
+    #    are tied in the C17 check (harness/h_composite.py)
     return report.finish(proof, cov, assumptions=[
-        "OSFS/TempFS against the real kernel, archives' temp filesystems and MountFS/MultiFS/SubFS/WrapFS "
-        "are compared with the reference by differential execution only (no Gallina model of them yet)",
+        "OSFS against the real kernel: the OSFS model over FS/Posix.v (kernel answers re-checked per run; no permissions, "
+        "symlinks or concurrency in the kernel model); TempFS, archives' temp filesystems and the wrapper kinds other than "
+        "SubFS/WrapFS/read_only over MemoryFS are compared with the reference by differential execution only",
         "times are outside the observable tree (names, types, bytes)"])
 
 
@@ -323,6 +330,9 @@ def run(report):
 def replay(report, path):
     with open(path) as fh:
         d = json.load(fh)
+    if str(d.get("correspondence", "")).startswith(("real OSFS vs", "this kernel vs")):
+        import h_osfs
+        return h_osfs.replay(path)
     bc = B.BY_NAME.get(d.get("backend"), B.Mem)
     if d.get("kind") == "spellings-disagree-on-one-object":
         log = [(w, op_from_json(o)) for w, o in d["log"]]
